@@ -1,6 +1,7 @@
 package main
 
 import (
+	"net/url"
 	"fmt"
 	"io"
 	"net"
@@ -91,6 +92,18 @@ func (e *pickEnv) mk(i int, scheme, cond string) string {
 	e.n++
 	id := fmt.Sprint(i)
 	dir := filepath.Join(e.root, fmt.Sprintf("w%d", e.n))
+	if e.n%4 == 2 && (scheme == "file" || scheme == "ca+file") && (cond == "holding" || cond == "lacking") {
+		// a directory name that needs escaping in a URL, its address given percent-encoded (as url.URL.String() writes it)
+		dir = filepath.Join(e.root, fmt.Sprintf("my wares é%d", e.n))
+		defer func() {}()
+		addr := e.mkIn(dir, id, scheme, cond)
+		pre := scheme + "://"
+		return pre + (&url.URL{Path: strings.TrimPrefix(addr, pre)}).EscapedPath()
+	}
+	return e.mkIn(dir, id, scheme, cond)
+}
+
+func (e *pickEnv) mkIn(dir, id, scheme, cond string) string {
 	if e.n%2 == 1 && cond != "missingdir" && (scheme == "file" || scheme == "ca+file") {
 		// every other local warehouse directory is reached through a symlink: a layout detail that must not matter
 		real := dir + ".real"
